@@ -18,17 +18,19 @@ Require Import UFLV.Props.C23_syn2.
 Local Arguments join : simpl never.
 
 Section Frag.
+Variable cfn : mathfn -> bool.     (* math functions the analysis types complex (C23_model.cfn_of) *)
+Variable cbs : bkind -> bool.      (* Bessel kinds the analysis types complex *)
 Variable okfn : mathfn -> bool.
 Variable okb : bool.
 Fixpoint inF (e : expr) : bool :=
   match e with
   | Zero _ _ | IntV _ | RealV _ _ | CplxV _ _ _ _ | RatV _ _ | Identity _ | PermSym _ | Term _ _ _ => true
   | Sum a b | Product a b | Division a b | Power a b | MinV a b | MaxV a b | Atan2 a b => inF a && inF b
-  | Bessel _ a b => okb && (inF a && inF b)
+  | Bessel k a b => (cbs k || okb) && (inF a && inF b)
   | Abs a | Conj a | Real a | Imag a | Indexed a _ | IndexSum a _ _ | ComponentTensor a _
   | Vari a _ | Restricted _ a | Grad a _ | RefGrad a _ | Div a _ | NablaGrad a _
   | NablaDiv a _ | RefValue a _ | Transposed a => inF a
-  | Math f a => (match f with FSqrt => true | _ => okfn f end) && inF a
+  | Math f a => (cfn f || okfn f) && inF a
   | ListTensor es => (fix go (l : list expr) := match l with [] => true | x :: t => inF x && go t end) es
   | Conditional c t f => inFc c && (inF t && inF f)
   | Curl _ | Outer _ _ | Inner _ _ | Dot _ _ | Cross _ _ | Perp _ | Trace _ | Determinant _
@@ -54,13 +56,12 @@ Definition not_sqrt (f : mathfn) : bool := match f with FSqrt => false | _ => tr
 
 Definition isIntV (b : expr) : bool := match b with IntV _ => true | _ => false end.
 
-Lemma check_isIntV b b' t : check b = Some (b', t) -> isIntV b = true -> b' = b.
+Lemma check_isIntV cfn cbs b b' t : check cfn cbs b = Some (b', t) -> isIntV b = true -> b' = b.
 Proof. destruct b; simpl; try discriminate. intros H _. inv H. reflexivity. Qed.
-Lemma check_notIntV b b' t : check b = Some (b', t) -> isIntV b = false -> isIntV b' = false.
+Lemma check_notIntV cfn cbs b b' t : check cfn cbs b = Some (b', t) -> isIntV b = false -> isIntV b' = false.
 Proof.
   destruct b; try rewrite check_ListTensor; simpl; unf; intros H Hb; try discriminate Hb;
     try (dcheck; inv H; reflexivity).
-  destruct f; unf; dcheck; inv H; reflexivity.
 Qed.
 
 Lemma join_nc ts : is_complex (join ts) = false -> existsb is_complex ts = false.
@@ -80,8 +81,14 @@ Add Field Af23 : (kfield A).
 Variable env : side -> nat -> nat -> list nat -> A.
 Variables D DX : nat -> A -> A.
 Variable ki : A.
+Variable cfn : mathfn -> bool.
+Variable cbs : bkind -> bool.
 Variable okfn : mathfn -> bool.
 Variable okb : bool.
+Local Notation check := (C23_model.check cfn cbs).
+Local Notation checkc := (C23_model.checkc cfn cbs).
+Local Notation check_list := (C23_model.check_list cfn cbs).
+Local Notation bad_site := (C23_model.bad_site cfn cbs).
 Open Scope K_scope.
 Notation DEN := (@den A env D DX ki).
 Notation DENC := (@denc A env D DX ki).
@@ -149,16 +156,16 @@ Proof.
 Qed.
 
 Definition Ps (e : expr) : Prop :=
-  forall e' t, inF okfn okb e = true -> check e = Some (e', t) ->
+  forall e' t, inF cfn cbs okfn okb e = true -> check e = Some (e', t) ->
     (forall s rho c, DEN s rho e' c = DEN s rho e c) /\
     (is_complex t = false -> forall s rho c, isreal (DEN s rho e c)).
 Definition Qs (cn : cond) : Prop :=
-  forall c' t, inFc okfn okb cn = true -> checkc cn = Some (c', t) ->
+  forall c' t, inFc cfn cbs okfn okb cn = true -> checkc cn = Some (c', t) ->
     forall s rho, DENC s rho c' = DENC s rho cn.
 
 Lemma sound_list es :
   (forall x, In x es -> Ps x) ->
-  forall es' ts, inF_list okfn okb es = true -> check_list es = Some (es', ts) ->
+  forall es' ts, inF_list cfn cbs okfn okb es = true -> check_list es = Some (es', ts) ->
     (forall s rho n c, nth_den_l s rho es' n c = nth_den_l s rho es n c) /\
     (existsb is_complex ts = false -> forall s rho n c, isreal (nth_den_l s rho es n c)).
 Proof.
@@ -226,7 +233,7 @@ Proof.
     + (* Power *)
       destruct (check e1) as [[a' ta]|] eqn:Ea; [|discriminate].
       destruct (check e2) as [[b' tb]|] eqn:Eb; [|discriminate]. inv H. split_guard G.
-      pose proof (check_isIntV _ _ _ Eb) as Hlit. pose proof (check_notIntV _ _ _ Eb) as Hnlit.
+      pose proof (check_isIntV _ _ _ _ _ Eb) as Hlit. pose proof (check_notIntV _ _ _ _ _ Eb) as Hnlit.
       destruct (IHe e1 ltac:(simpl; lia) _ _ ltac:(assumption) Ea) as [Hva Hra].
       destruct (IHe e2 ltac:(simpl; lia) _ _ ltac:(assumption) Eb) as [Hvb Hrb].
       assert (V : forall s rho c, DEN s rho (Power a' b') c = DEN s rho (Power e1 e2) c).
@@ -281,15 +288,18 @@ Proof.
       * intros s rho c. cbn [den]. rewrite !mk_real_den; rewrite ?Hv, ?Hv0; auto.
       * intros _ s rho c. cbn [den]. apply Rmax; auto.
     + (* Math *)
-      destruct f; unf; dcheck; inv H; split_guard G; use_ih IHe IHc;
+      destruct (cfn f) eqn:Ef; dcheck; inv H; split_guard G; use_ih IHe IHc;
         (split; [intros s rho c; cbn [den]; rewrite Hv; reflexivity|]);
         try discriminate; intros Hn s rho c; ncs; cbn [den]; apply Rfn; auto.
+      match goal with Hg : cfn f || okfn f = true |- _ => rewrite Ef in Hg; exact Hg end.
     + (* Atan2 *) dcheck. inv H. split_guard G. use_ih IHe IHc. split.
       * intros s rho c. cbn [den]. rewrite Hv, Hv0. reflexivity.
       * intros Hn s rho c. ncs. cbn [den]. apply Ratan2; auto.
-    + (* Bessel *) dcheck. inv H. split_guard G. use_ih IHe IHc. split.
-      * intros s rho c. cbn [den]. rewrite Hv, Hv0. reflexivity.
-      * intros Hn s rho c. ncs. cbn [den]. apply Rbessel; auto.
+    + (* Bessel *)
+      destruct (cbs k) eqn:Ek; dcheck; inv H; split_guard G; use_ih IHe IHc;
+        (split; [intros s rho c; cbn [den]; rewrite Hv, Hv0; reflexivity|]);
+        try discriminate; intros Hn s rho c; ncs; cbn [den]; apply Rbessel; auto.
+      match goal with Hg : cbs k || okb = true |- _ => rewrite Ek in Hg; exact Hg end.
     + (* Vari *) dcheck. inv H. split_guard G. use_ih IHe IHc. split.
       * intros s rho c. cbn [den]. apply Hv.
       * discriminate.
@@ -334,29 +344,29 @@ Qed.
 
 
 (* the fragment is closed under taking the operands of ordering sites *)
-Definition inF_site (p : expr * expr) : bool := inF okfn okb (fst p) && inF okfn okb (snd p).
-Lemma inF_site_pair a b : inF_site (a, b) = inF okfn okb a && inF okfn okb b.
+Definition inF_site (p : expr * expr) : bool := inF cfn cbs okfn okb (fst p) && inF cfn cbs okfn okb (snd p).
+Lemma inF_site_pair a b : inF_site (a, b) = inF cfn cbs okfn okb a && inF cfn cbs okfn okb b.
 Proof. reflexivity. Qed.
 Lemma inF_sites_list es :
-  (forall x, In x es -> inF okfn okb x = true -> forallb inF_site (sites x) = true) ->
-  inF_list okfn okb es = true -> forallb inF_site (sites_list es) = true.
+  (forall x, In x es -> inF cfn cbs okfn okb x = true -> forallb inF_site (sites x) = true) ->
+  inF_list cfn cbs okfn okb es = true -> forallb inF_site (sites_list es) = true.
 Proof.
   induction es as [|x es IH]; intros HP G; [reflexivity|]. simpl in G. apply andb_true_iff in G.
   destruct G as [G1 G2]. simpl. rewrite forallb_app'.
   rewrite (HP x (or_introl eq_refl) G1), (IH (fun y Hy => HP y (or_intror Hy)) G2). reflexivity.
 Qed.
 Lemma inF_sites_both :
-  (forall e, inF okfn okb e = true -> forallb inF_site (sites e) = true) /\
-  (forall c, inFc okfn okb c = true -> forallb inF_site (csites c) = true).
+  (forall e, inF cfn cbs okfn okb e = true -> forallb inF_site (sites e) = true) /\
+  (forall c, inFc cfn cbs okfn okb c = true -> forallb inF_site (csites c) = true).
 Proof.
   apply size_ind2.
   - intros e IHe IHc G.
     destruct e; try discriminate G; try reflexivity;
       try (split_guard G; cbn [sites forallb]; rewrite ?forallb_app', ?inF_site_pair;
            repeat match goal with
-           | H : inF okfn okb ?x = true |- _ =>
+           | H : inF cfn cbs okfn okb ?x = true |- _ =>
                rewrite ?H; rewrite (IHe x ltac:(simpl; lia) H); clear H
-           | H : inFc okfn okb ?x = true |- _ => rewrite (IHc x ltac:(simpl; lia) H); clear H
+           | H : inFc cfn cbs okfn okb ?x = true |- _ => rewrite (IHc x ltac:(simpl; lia) H); clear H
            end; reflexivity).
     + change (forallb inF_site (sites_list es) = true). apply inF_sites_list; [|exact G].
       intros x Hx. apply IHe. rewrite size_ListTensor. apply In_size_list, Hx.
@@ -364,12 +374,12 @@ Proof.
       rewrite (IHc c ltac:(simpl; lia) ltac:(assumption)), (IHe e1 ltac:(simpl; lia) ltac:(assumption)),
               (IHe e2 ltac:(simpl; lia) ltac:(assumption)). reflexivity.
   - intros c IHe IHc G. destruct c.
-    + change (inF okfn okb a && inF okfn okb b = true) in G. apply andb_true_iff in G. destruct G as [Ga Gb].
+    + change (inF cfn cbs okfn okb a && inF cfn cbs okfn okb b = true) in G. apply andb_true_iff in G. destruct G as [Ga Gb].
       cbn [csites]. rewrite !forallb_app'. rewrite (IHe a ltac:(simpl; lia) Ga), (IHe b ltac:(simpl; lia) Gb).
       destruct (ordering op); cbn [forallb]; rewrite ?inF_site_pair, ?Ga, ?Gb; reflexivity.
-    + change (inFc okfn okb c1 && inFc okfn okb c2 = true) in G. apply andb_true_iff in G. destruct G as [Ga Gb].
+    + change (inFc cfn cbs okfn okb c1 && inFc cfn cbs okfn okb c2 = true) in G. apply andb_true_iff in G. destruct G as [Ga Gb].
       cbn [csites]. rewrite forallb_app', (IHc c1 ltac:(simpl; lia) Ga), (IHc c2 ltac:(simpl; lia) Gb). reflexivity.
-    + change (inFc okfn okb c1 && inFc okfn okb c2 = true) in G. apply andb_true_iff in G. destruct G as [Ga Gb].
+    + change (inFc cfn cbs okfn okb c1 && inFc cfn cbs okfn okb c2 = true) in G. apply andb_true_iff in G. destruct G as [Ga Gb].
       cbn [csites]. rewrite forallb_app', (IHc c1 ltac:(simpl; lia) Ga), (IHc c2 ltac:(simpl; lia) Gb). reflexivity.
     + exact (IHc c ltac:(simpl; lia) G).
 Qed.
@@ -377,12 +387,12 @@ Qed.
 (* ---- the stated theorems (complex mode) ---- *)
 
 (* C23_value: the Real(.) wraps do not change the value of any component *)
-Theorem C23_value : forall e e' t, inF okfn okb e = true -> check e = Some (e', t) ->
+Theorem C23_value : forall e e' t, inF cfn cbs okfn okb e = true -> check e = Some (e', t) ->
   forall s rho c, DEN s rho e' c = DEN s rho e c.
 Proof. intros e e' t G H. exact (proj1 (proj1 sound_both e e' t G H)). Qed.
 
 (* C23_types: nodetype real (or bool) => the value is real, for the input and the output *)
-Theorem C23_types : forall e e' t, inF okfn okb e = true -> check e = Some (e', t) -> t <> TComplex ->
+Theorem C23_types : forall e e' t, inF cfn cbs okfn okb e = true -> check e = Some (e', t) -> t <> TComplex ->
   forall s rho c, kim (DEN s rho e c) = k0 /\ kim (DEN s rho e' c) = k0.
 Proof.
   intros e e' t G H Ht s rho c. destruct (proj1 sound_both e e' t G H) as [Hv Hr].
@@ -392,18 +402,18 @@ Qed.
 
 (* C23_operands_real: in an accepted expression every ordering comparison / min / max, anywhere,
    compares real values *)
-Theorem C23_operands_real : forall e e' t, inF okfn okb e = true -> check e = Some (e', t) ->
+Theorem C23_operands_real : forall e e' t, inF cfn cbs okfn okb e = true -> check e = Some (e', t) ->
   forall a b, In (a, b) (sites e) ->
   forall s rho c, kim (DEN s rho a c) = k0 /\ kim (DEN s rho b c) = k0.
 Proof.
   intros e e' t G H a b Hin s rho c.
-  pose proof (proj1 ok_both e e' t H) as W.
+  pose proof (proj1 (ok_both cfn cbs) e e' t H) as W.
   assert (Hb : bad_site (a, b) = false).
   { destruct (bad_site (a, b)) eqn:Eb; [|reflexivity].
     assert (existsb bad_site (sites e) = true) by (apply existsb_exists; eauto). congruence. }
   pose proof (proj1 inF_sites_both e G) as Gs. rewrite forallb_forall in Gs. specialize (Gs _ Hin).
   unfold inF_site in Gs; simpl in Gs. apply andb_true_iff in Gs. destruct Gs as [Ga Gb].
-  unfold bad_site, ty_of in Hb; simpl in Hb.
+  unfold C23_model.bad_site, C23_model.ty_of in Hb; simpl in Hb.
   destruct (check a) as [[a' ta]|] eqn:Ea; [|discriminate].
   destruct (check b) as [[b' tb]|] eqn:Eb; [|discriminate].
   apply orb_false_iff in Hb. destruct Hb as [Ha Hb].
@@ -412,29 +422,52 @@ Qed.
 
 End Sound.
 
-(* instances of the fragment parameter:
-   - [total_real], no Bessel: every hypothesis of the Section holds in the complex numbers;
-   - [not_sqrt], Bessel allowed: the analysis as the code performs it; the hypothesis Rfn then says
-     "ln, acos, asin (and the Bessel functions) map reals to reals", which is FALSE in C
-     (ln(-1) = i pi): see C23_types_refuted. *)
-Definition C23_types_partial := fun A env D DX ki => @C23_types A env D DX ki total_real false.
-Definition C23_value_partial := fun A env D DX ki => @C23_value A env D DX ki total_real false.
-Definition C23_operands_real_partial := fun A env D DX ki => @C23_operands_real A env D DX ki total_real false.
-Definition C23_types_realdomain := fun A env D DX ki => @C23_types A env D DX ki not_sqrt true.
-Definition C23_operands_real_realdomain := fun A env D DX ki => @C23_operands_real A env D DX ki not_sqrt true.
+(* instances.  Variant of the analysis: cfn_of false / cbs_of false = the pinned tree (only sqrt typed
+   complex); cfn_of true / cbs_of true = the tree with fixes/C23-partial-mathfn.diff (sqrt, ln, acos, asin
+   and all Bessel functions typed complex).  Math-function hypothesis: [total_real] (exp cos sin tan cosh
+   sinh tanh atan erf map reals to reals: true in C), no Bessel hypothesis.
+   - pinned + total_real: the fragment must exclude ln/acos/asin/Bessel nodes       (_partial)
+   - pinned + not_sqrt  : hypothesis "ln, acos, asin, Bessel map reals to reals", FALSE in C (_realdomain)
+   - fixed  + total_real: the fragment INCLUDES ln/acos/asin/Bessel nodes: the full statement (_fixed) *)
+Definition C23_types_partial := fun A env D DX ki =>
+  @C23_types A env D DX ki (cfn_of false) (cbs_of false) total_real false.
+Definition C23_value_partial := fun A env D DX ki =>
+  @C23_value A env D DX ki (cfn_of false) (cbs_of false) total_real false.
+Definition C23_operands_real_partial := fun A env D DX ki =>
+  @C23_operands_real A env D DX ki (cfn_of false) (cbs_of false) total_real false.
+Definition C23_types_realdomain := fun A env D DX ki =>
+  @C23_types A env D DX ki (cfn_of false) (cbs_of false) not_sqrt true.
+Definition C23_operands_real_realdomain := fun A env D DX ki =>
+  @C23_operands_real A env D DX ki (cfn_of false) (cbs_of false) not_sqrt true.
+Definition C23_types_fixed := fun A env D DX ki =>
+  @C23_types A env D DX ki (cfn_of true) (cbs_of true) total_real false.
+Definition C23_value_fixed := fun A env D DX ki =>
+  @C23_value A env D DX ki (cfn_of true) (cbs_of true) total_real false.
+Definition C23_operands_real_fixed := fun A env D DX ki =>
+  @C23_operands_real A env D DX ki (cfn_of true) (cbs_of true) total_real false.
+(* the fragment of the fixed variant contains every math function and every Bessel function *)
+Lemma inF_fixed_math f a : inF (cfn_of true) (cbs_of true) total_real false (Math f a)
+                           = inF (cfn_of true) (cbs_of true) total_real false a.
+Proof. destruct f; reflexivity. Qed.
+Lemma inF_fixed_bessel k nu a : inF (cfn_of true) (cbs_of true) total_real false (Bessel k nu a)
+  = inF (cfn_of true) (cbs_of true) total_real false nu && inF (cfn_of true) (cbs_of true) total_real false a.
+Proof. reflexivity. Qed.
 Print Assumptions C23_types_partial.
 Print Assumptions C23_value_partial.
 Print Assumptions C23_operands_real_partial.
 Print Assumptions C23_types_realdomain.
+Print Assumptions C23_types_fixed.
+Print Assumptions C23_value_fixed.
+Print Assumptions C23_operands_real_fixed.
 
-(* Without the real-domain hypothesis the analysis is unsound: whenever the algebra has a real x whose
-   logarithm is not real (x = -1 in C), the accepted comparison  ln(X) < 0  (X a geometric quantity, a
-   terminal classified real, with the real value x) compares a non-real value. *)
+(* Pinned variant, without the real-domain hypothesis the analysis is unsound: whenever the algebra has a
+   real x whose logarithm is not real (x = -1 in C), the accepted comparison  ln(X) < 0  (X a geometric
+   quantity, a terminal classified real, with the real value x) compares a non-real value. *)
 Definition C23_witness : expr := Conditional (Cmp CLT (Math FLn (Term 10 0 [])) (Zero [] [])) (IntV 1) (IntV 2).
 Theorem C23_types_refuted : forall (A : ualg) (D DX : nat -> A -> A) (ki x : A),
   kim x = k0 -> kim (kfn FLn x) <> k0 ->
   exists e e' t a b (env : side -> nat -> nat -> list nat -> A),
-    check e = Some (e', t) /\ In (a, b) (sites e) /\
+    check (cfn_of false) (cbs_of false) e = Some (e', t) /\ In (a, b) (sites e) /\
     (forall s k id c, term_ty k = TReal -> kim (env s k id c) = k0) /\
     forall s rho, kim (@den A env D DX ki s rho a []) <> k0.
 Proof.
@@ -445,4 +478,6 @@ Proof.
   intros s rho. exact Hln.
 Qed.
 Print Assumptions C23_types_refuted.
-
+(* ... and the fixed variant rejects that witness *)
+Example C23_witness_rejected_fixed : check (cfn_of true) (cbs_of true) C23_witness = None.
+Proof. reflexivity. Qed.
